@@ -20,7 +20,7 @@ class C04(EvalCheck):
         cases = []
         for ti in range(n):
             nd = rng.choice([1, 1, 1, 2, 3])
-            style = rng.choice(["uniform", "irregular", "repeated", "repeated", "wild", "integer"])
+            style = rng.choice(["uniform", "irregular", "repeated", "repeated", "wild", "integer", "symm", "far", "multi", "clamped"])
             sr = rng.choice([(-2, 2), (-2, 2), (-300, -290), (290, 300), (-20, 20)])
             # long knot vectors too (the bisection then makes many steps): one-dimensional tables only, to keep the array small
             extra = rng.choice([0, 1, 3, 9, 40] + ([300, 2500] if nd == 1 else []))
